@@ -6,14 +6,30 @@
 #include <stdarg.h>
 using namespace vlog;
 static std::vector<unsigned char> outb;
-static void cb(void *, int c) { outb.push_back((unsigned char)c); if (outb.size() > 100000) { flush(); _exit(9); } }
+// re-entrant use (ops Pfn / Pdn): the output callback of the outer call itself formats through the engine (a logging sink that prints a
+// counter, a terminal driver that prints a cursor position) after every character it receives; both outputs must be what they
+// would be alone.  The inner calls are fixed: "%ld|%#lx|%o" and "%.3e".
+extern "C" int igv_sprintf(char *buf, const char *format, ...);
+static int g_nest = 0; static std::vector<unsigned char> in1, in2; static int in1r, in2r;
+static const long IN_A = 123456789L; static const unsigned long IN_B = 0xdeadbeefUL; static const unsigned IN_C = 0777; static const double IN_D = 12345.678;
+static void cbi1(void *, int c) { in1.push_back((unsigned char)c); }
+static void cbi2(void *, int c) { in2.push_back((unsigned char)c); }
+static int calli(void (*f)(void *, int), const char *fmt, ...) { va_list ap; va_start(ap, fmt); int r = __printf(f, 0, fmt, ap); va_end(ap); return r; }
+static void cb(void *, int c) { outb.push_back((unsigned char)c); if (outb.size() > 100000) { flush(); _exit(9); }
+    if (g_nest == 1) { g_nest = 2; in1.clear(); in2.clear(); in1r = calli(cbi1, "%ld|%#lx|%o", IN_A, IN_B, IN_C); in2r = calli(cbi2, "%.3e", IN_D); g_nest = 1; } }
 static int call(const char *fmt, ...) { va_list ap; va_start(ap, fmt); int r = __printf(cb, 0, fmt, ap); va_end(ap); return r; }
+static std::string le8(unsigned long long v) { std::string s = "{\"v\":["; for (int j = 0; j < 8; ++j) { if (j) s += ","; s += std::to_string((unsigned)((v >> (8 * j)) & 255)); } return s + "],\"s\":[]}"; }
+static void log_inner() {   // the inner calls as ordinary events of their own
+    if (in1.empty() && in2.empty()) return;
+    const char *f1 = "%ld|%#lx|%o"; std::vector<unsigned char> sb(in1.size() + 1 + 16, 0xA5); int r2 = igv_sprintf((char *)sb.data() + 8, f1, IN_A, IN_B, IN_C); Ev e("Pf"); e.bytes("fmt", f1, strlen(f1)).raw("args", "[" + le8(IN_A) + "," + le8(IN_B) + "," + le8(IN_C) + "]").bytes("out", in1.data(), in1.size()).i("ret", in1r).i("ret2", r2).bytes("sbuf", sb.data(), sb.size()).i("inner", 1); e.end();
+    const char *f2 = "%.3e"; unsigned char db[8]; memcpy(db, &IN_D, 8); Ev e2("Pd"); e2.bytes("fmt", f2, strlen(f2)).i("ws", -9999).i("ps", -9999).bytes("dbl", db, 8).bytes("out", in2.data(), in2.size()).i("ret", in2r).i("inner", 1); e2.end(); }
 extern "C" int igv_sprintf(char *buf, const char *format, ...);
 int main(int argc, char **argv) {
     return run(argc, argv, [&](const std::vector<std::string> &t) {
         if (t[0] == "R") { Ev e("Reset"); e.end(); return; }
         auto fb = blist(t[1]); char *fmt = (char *)malloc(fb.size() + 1); memcpy(fmt, fb.data(), fb.size()); fmt[fb.size()] = 0;
-        if (t[0] == "Pf") {
+        bool nest = t[0] == "Pfn" || t[0] == "Pdn"; in1.clear(); in2.clear();
+        if (t[0] == "Pf" || t[0] == "Pfn") {
             long long a[3] = {0, 0, 0}; std::vector<char *> blocks; std::string argsj = "[";
             for (size_t k = 2; k < t.size() && k < 5; ++k) {
                 const std::string &s = t[k]; if (k > 2) argsj += ",";
@@ -24,16 +40,17 @@ int main(int argc, char **argv) {
                     argsj += "{\"v\":[0,0,0,0,0,0,0,0],\"s\":["; for (size_t j = 0; j < b.size(); ++j) { if (j) argsj += ","; argsj += std::to_string((unsigned)b[j]); } argsj += "]}"; }
             }
             argsj += "]";
-            outb.clear(); int r = call(fmt, a[0], a[1], a[2]);
+            outb.clear(); g_nest = nest ? 1 : 0; int r = call(fmt, a[0], a[1], a[2]); g_nest = 0;
             // the compat sprintf shim must produce the same characters (buffer sized from the callback run + terminator, guarded)
             std::vector<unsigned char> sb(outb.size() + 1 + 16, 0xA5); int r2 = igv_sprintf((char *)sb.data() + 8, fmt, a[0], a[1], a[2]);
-            Ev e("Pf"); e.bytes("fmt", fb.data(), fb.size()).raw("args", argsj).bytes("out", outb.data(), outb.size()).i("ret", r).i("ret2", r2).bytes("sbuf", sb.data(), sb.size()); e.end();
+            Ev e("Pf"); e.bytes("fmt", fb.data(), fb.size()).raw("args", argsj).bytes("out", outb.data(), outb.size()).i("ret", r).i("ret2", r2).bytes("sbuf", sb.data(), sb.size()).i("nested", nest ? 1 : 0); e.end(); if (nest) log_inner();
             for (auto b : blocks) free(b);
-        } else if (t[0] == "Pd") {
+        } else if (t[0] == "Pd" || t[0] == "Pdn") {
             auto db = blist(t[4]); double d; memcpy(&d, db.data(), 8); outb.clear(); int r;
             bool ws = t[2] != "n", ps = t[3] != "n";
+            g_nest = nest ? 1 : 0;
             if (ws && ps) r = call(fmt, (int)num(t[2]), (int)num(t[3]), d); else if (ws) r = call(fmt, (int)num(t[2]), d); else if (ps) r = call(fmt, (int)num(t[3]), d); else r = call(fmt, d);
-            Ev e("Pd"); e.bytes("fmt", fb.data(), fb.size()).i("ws", ws ? num(t[2]) : -9999).i("ps", ps ? num(t[3]) : -9999).bytes("dbl", db.data(), 8).bytes("out", outb.data(), outb.size()).i("ret", r); e.end();
+            Ev e("Pd"); e.bytes("fmt", fb.data(), fb.size()).i("ws", ws ? num(t[2]) : -9999).i("ps", ps ? num(t[3]) : -9999).bytes("dbl", db.data(), 8).bytes("out", outb.data(), outb.size()).i("ret", r).i("nested", nest ? 1 : 0); g_nest = 0; e.end(); if (nest) log_inner();
         }
         free(fmt);
     });
